@@ -5,6 +5,7 @@
 import MptModel.Lemmas.DispatchTable
 import MptModel.Lemmas.DispatchText
 import MptModel.Lemmas.DispatchSpec
+import MptModel.Lemmas.DispatchFrag
 set_option linter.unusedSimpArgs false
 set_option linter.constructorNameAsVariable false
 namespace Mpt.Dispatch
@@ -271,7 +272,7 @@ theorem unknownEvent_answer (evid : Id) (msg : Option (List Byte)) :
 
 theorem emitResolved_spec {d : Disp} {cmd : Option (Nat × Slot)} {evid : Id} {msg : Option (List Byte)} {res : HRes}
     (hcmd : ∀ i s, cmd = some (i, s) → s.cmd = some .user) :
-    emitResolved d cmd evid msg res =
+    emitResolved d cmd evid msg false res =
       match resolveReg cmd d.err with
       | some r => ({ d with dflt := (book d.dflt evid res).2 }, ⟨.val (book d.dflt evid res).1, [.call r evid]⟩)
       | none =>
@@ -295,7 +296,7 @@ theorem emitResolved_spec {d : Disp} {cmd : Option (Nat × Slot)} {evid : Id} {m
   | some x =>
     obtain ⟨i, s⟩ := x
     have := hcmd i s rfl
-    simp only [this, Option.map_some, resolveReg]
+    simp only [this, Option.map_some, resolveReg, Bool.false_eq_true, if_false]
     exact key s.arg
   | none =>
     cases he : d.err with
@@ -310,7 +311,7 @@ theorem emitResolved_spec {d : Disp} {cmd : Option (Nat × Slot)} {evid : Id} {m
         exact this
       · simp [hb, Err.code]
     | some r =>
-      simp only [Option.map_some, resolveReg]
+      simp only [Option.map_some, resolveReg, Bool.false_eq_true, if_false]
       have := key r
       simp only [he] at this
       exact this
@@ -514,9 +515,9 @@ theorem lookup_eq {m : St} {sp : Spec} {id : Id} (hr : Rel m sp) (hs : SInv sp) 
 /-- `emitResolved` against `stepEmit` -/
 theorem refines_resolved {m : St} {sp : Spec} {id : Id} {msg : Option (List Byte)} {h : HRes}
     (hw : TWf m.d.tab) (hr : Rel m sp) (hs : SInv sp) :
-    ∃ sp', sp.stepEmit id msg h (emitResolved m.d (commandGet m.d.tab id) id msg h).2 = some sp' ∧
-      Rel { m with d := (emitResolved m.d (commandGet m.d.tab id) id msg h).1 } sp' ∧
-      (emitResolved m.d (commandGet m.d.tab id) id msg h).1.tab = m.d.tab := by
+    ∃ sp', sp.stepEmit id msg false h (emitResolved m.d (commandGet m.d.tab id) id msg false h).2 = some sp' ∧
+      Rel { m with d := (emitResolved m.d (commandGet m.d.tab id) id msg false h).1 } sp' ∧
+      (emitResolved m.d (commandGet m.d.tab id) id msg false h).1.tab = m.d.tab := by
   rw [emitResolved_spec (get_user hw)]
   unfold Spec.stepEmit
   rw [target_eq hr hs]
@@ -619,42 +620,315 @@ theorem findSome_const {α β} {l : List α} {f : α → Option β} {c : β} (ha
       · rw [hfa] at hs; cases hs
       · exact ⟨x, hx, hs⟩
 
+/-- the reading of the message `mpt_dispatch_hash` arrived at, in the spec's terms -/
+def HashId.cid : HashId → Option Id
+  | .id v => some v
+  | .fail => none
+
+theorem hashId_cid (msg : List Byte) : (hashId msg).cid ∈ cmdIds msg := by
+  rcases hashId_cmdIds msg with ⟨v, hv, hmem⟩ | ⟨hf, hmem⟩
+  · rw [hv]; exact hmem
+  · rw [hf]; exact hmem
+
+theorem hashIdFrag_cid (frags : List (List Byte)) : (hashIdFrag frags).cid ∈ cmdIdsFrag frags := by
+  rcases hashIdFrag_cmdIds frags with ⟨v, hv, hmem⟩ | ⟨hf, hmem⟩
+  · rw [hv]; exact hmem
+  · rw [hf]; exact hmem
+
+/-- `mpt_dispatch_hash` from the lookup on, in the spec's terms -/
+theorem hashExec_outcome {m : St} {sp : Spec} (hw : TWf m.d.tab) (hr : Rel m sp) (hs : SInv sp)
+    (hid : HashId) (msg : List Byte) (h : HRes) :
+    hashExec m.d hid msg h =
+      (⟨.val (sp.hashOutcome msg h hid.cid).2.1, (sp.hashOutcome msg h hid.cid).1⟩, (sp.hashOutcome msg h hid.cid).2.2) := by
+  cases hid with
+  | fail => rfl
+  | id v =>
+    unfold hashExec Spec.hashOutcome HashId.cid
+    simp only
+    cases hg : commandGet m.d.tab v with
+    | some x =>
+      obtain ⟨i, s⟩ := x
+      have hu := get_user hw i s hg
+      have hlk : sp.lookup v = some s.arg := by rw [lookup_eq hr hs, hg]; rfl
+      simp only [hu, invoke, hlk]
+      by_cases hneg : h.val < 0
+      · simp [hneg]
+      · simp [hneg]
+    | none =>
+      have hlk : sp.lookup v = none := by rw [lookup_eq hr hs, hg]; rfl
+      simp only [hlk]
+      cases he : m.d.err with
+      | none =>
+        have hfb : sp.fb = none := by rw [hr.fb]; exact he
+        simp only [hfb]
+        by_cases hb : m.d.bi = true
+        · have hsb : sp.bi = true := by rw [hr.bi]; exact hb
+          simp [hb, hsb, (unknownEvent_answer v (some msg)).1]
+        · have hsb : sp.bi = false := by rw [hr.bi]; simpa using hb
+          simp [hb, hsb]
+      | some r =>
+        have hfb : sp.fb = some r := by rw [hr.fb]; exact he
+        simp [hfb, invoke]
+
+/-- the monitor accepts the outcome the spec lists for the reading -/
+theorem stepHashId_outcome (sp : Spec) (msg : List Byte) (cid : Option Id) (h : HRes) :
+    sp.stepHashId msg cid h ⟨.val (sp.hashOutcome msg h cid).2.1, (sp.hashOutcome msg h cid).1⟩ = some sp := by
+  unfold Spec.stepHashId Spec.hashOutcome
+  cases cid with
+  | none => simp
+  | some v =>
+    simp only
+    rcases Option.eq_none_or_eq_some (sp.lookup v) with hlk | ⟨r, hlk⟩
+    · simp only [hlk]
+      rcases Option.eq_none_or_eq_some sp.fb with hfb | ⟨r, hfb⟩
+      · simp only [hfb]
+        by_cases hb : sp.bi = true
+        · simp [hb]
+        · simp [hb]
+      · simp [hfb]
+    · simp only [hlk]
+      by_cases hneg : h.val < 0
+      · simp [hneg]
+      · simp [hneg]
+
+theorem hash_accept {m : St} {sp : Spec} (hw : TWf m.d.tab) (hr : Rel m sp) (hs : SInv sp)
+    (hid : HashId) (msg : List Byte) (h : HRes) (l : List (Option Id)) (hmem : hid.cid ∈ l) :
+    l.findSome? (fun cid => sp.stepHashId msg cid h (hashExec m.d hid msg h).1) = some sp := by
+  apply findSome_const (f := fun cid => sp.stepHashId msg cid h (hashExec m.d hid msg h).1) (fun x y hxy => stepHashId_same hxy)
+  refine ⟨hid.cid, hmem, ?_⟩
+  rw [hashExec_outcome hw hr hs]
+  simp only [stepHashId_outcome, Option.isSome_some]
+
 theorem refines_hash {m : St} {sp : Spec} {msg : List Byte} {h : HRes} (hw : TWf m.d.tab) (hr : Rel m sp) (hs : SInv sp) :
     ∃ sp', sp.step (.hash msg h) (step m (.hash msg h)).2 = some sp' ∧ Rel (step m (.hash msg h)).1 sp' ∧
       TWf (step m (.hash msg h)).1.d.tab := by
   refine ⟨sp, ?_, ?_, ?_⟩
-  · simp only [step, Spec.step]
-    apply findSome_const (f := fun cid => sp.stepHashId msg cid h (dispatchHash m.d msg h)) (fun x y hxy => stepHashId_same hxy)
-    rcases hashId_cmdIds msg with ⟨v, hv, hmem⟩ | ⟨hf, hmem⟩
-    · refine ⟨some v, hmem, ?_⟩
-      unfold dispatchHash
-      rw [hv]
-      simp only
-      cases hg : commandGet m.d.tab v with
-      | some x =>
-        obtain ⟨i, s⟩ := x
-        have hu := get_user hw i s hg
-        have hlk : sp.lookup v = some s.arg := by rw [lookup_eq hr hs, hg]; rfl
-        simp only [hu, invoke, Spec.stepHashId, hlk]
-        by_cases hneg : h.val < 0
-        · simp [hneg]
-        · simp [hneg]
-      | none =>
-        have hlk : sp.lookup v = none := by rw [lookup_eq hr hs, hg]; rfl
-        cases he : m.d.err with
-        | none =>
-          by_cases hb : m.d.bi = true
-          · have hsb : sp.bi = true := by rw [hr.bi]; exact hb
-            simp [Spec.stepHashId, hlk, hr.fb, he, hb, hsb, (unknownEvent_answer v (some msg)).1]
-          · have hsb : sp.bi = false := by rw [hr.bi]; simpa using hb
-            simp [Spec.stepHashId, hlk, hr.fb, he, hb, hsb]
-        | some r => simp [Spec.stepHashId, hlk, hr.fb, he, invoke]
-    · refine ⟨none, hmem, ?_⟩
-      unfold dispatchHash
-      rw [hf]
-      simp [Spec.stepHashId]
+  · simp only [step, Spec.step, dispatchHash]
+    exact hash_accept hw hr hs _ _ _ _ (hashId_cid msg)
   · simp only [step]; exact ⟨hr.live, hr.fb, hr.dflt, hr.next, hr.bi⟩
   · simp only [step]; exact hw
+
+theorem refines_hashFrag {m : St} {sp : Spec} {frags : List (List Byte)} {h : HRes} (hw : TWf m.d.tab) (hr : Rel m sp) (hs : SInv sp) :
+    ∃ sp', sp.step (.hashFrag frags h) (step m (.hashFrag frags h)).2 = some sp' ∧ Rel (step m (.hashFrag frags h)).1 sp' ∧
+      TWf (step m (.hashFrag frags h)).1.d.tab := by
+  refine ⟨sp, ?_, ?_, ?_⟩
+  · simp only [step, Spec.step, dispatchHashFrag]
+    exact hash_accept hw hr hs _ _ _ _ (hashIdFrag_cid frags)
+  · simp only [step]; exact ⟨hr.live, hr.fb, hr.dflt, hr.next, hr.bi⟩
+  · simp only [step]; exact hw
+
+/- ---------- a handler that dispatches by hash ---------- -/
+/-- what the nested `mpt_dispatch_hash` gives back, in the spec's terms -/
+def nestedOutcome (sp : Spec) (msg : Option (List Byte)) (h : HRes) : List LogE × Int × Id :=
+  match msg with
+  | none => ([], failDefault, 0)
+  | some m => sp.hashOutcome m h (hashId m).cid
+
+theorem nestedOutcome_mem (sp : Spec) (msg : Option (List Byte)) (h : HRes) :
+    nestedOutcome sp msg h ∈ sp.hashOutcomes msg h := by
+  unfold nestedOutcome Spec.hashOutcomes
+  cases msg with
+  | none => simp
+  | some m => exact List.mem_map.mpr ⟨_, hashId_cid m, rfl⟩
+
+/-- an outcome either carries the one invocation made inside, or nothing happened and the event id is cleared -/
+theorem hashOutcome_shape (sp : Spec) (m : List Byte) (h : HRes) (cid : Option Id) :
+    (∃ r2 id2, cid = some id2 ∧ (sp.hashOutcome m h cid).1 = [.call r2 id2]) ∨
+    ((sp.hashOutcome m h cid).1 = [] ∧ (sp.hashOutcome m h cid).2.2 = 0 ∧
+      ((sp.hashOutcome m h cid).2.1 = 3 ∨ (sp.hashOutcome m h cid).2.1 = 2 ∨ (sp.hashOutcome m h cid).2.1 = 0)) := by
+  unfold Spec.hashOutcome
+  cases cid with
+  | none => right; simp [failDefault]
+  | some id2 =>
+    simp only
+    cases hlk : sp.lookup id2 with
+    | some r2 =>
+      left; refine ⟨r2, id2, rfl, ?_⟩
+      simp only; split <;> rfl
+    | none =>
+      cases hfb : sp.fb with
+      | some r2 => left; exact ⟨r2, id2, rfl, rfl⟩
+      | none =>
+        right
+        simp only
+        by_cases hb : sp.bi = true
+        · simp only [hb, if_true]
+          unfold builtinAnswer
+          by_cases h0 : (id2 != 0) = true
+          · simp [h0]
+          · have : id2 = 0 := by simpa using h0
+            subst this
+            cases m with
+            | nil => simp
+            | cons a b => simp
+        · simp [hb, failDefault]
+
+theorem book_quiet (dflt : Id) {v1 v2 : Int} (h1 : v1 = 3 ∨ v1 = 2 ∨ v1 = 0) (h2 : v2 = 3 ∨ v2 = 2 ∨ v2 = 0)
+    (he : (book dflt 0 ⟨v1, false⟩).1 = (book dflt 0 ⟨v2, false⟩).1) :
+    (book dflt 0 ⟨v1, false⟩).2 = (book dflt 0 ⟨v2, false⟩).2 := by
+  by_cases hd : dflt = 0
+  · subst hd
+    rcases h1 with rfl | rfl | rfl <;> rcases h2 with rfl | rfl | rfl <;>
+      simp [book, hasDefault, clrDefault, setDefault] at he ⊢
+  · have hd' : (dflt != 0) = true := by simpa using hd
+    rcases h1 with rfl | rfl | rfl <;> rcases h2 with rfl | rfl | rfl <;>
+      simp [book, hasDefault, clrDefault, setDefault, hd'] at he ⊢
+
+/-- two listed outcomes that look the same from outside leave the same default event -/
+theorem hashOutcomes_unique {sp : Spec} {msg : Option (List Byte)} {h : HRes} {o1 o2 : List LogE × Int × Id} (dflt : Id)
+    (h1 : o1 ∈ sp.hashOutcomes msg h) (h2 : o2 ∈ sp.hashOutcomes msg h) (hlog : o1.1 = o2.1)
+    (hb : (book dflt o1.2.2 ⟨o1.2.1, false⟩).1 = (book dflt o2.2.2 ⟨o2.2.1, false⟩).1) :
+    (book dflt o1.2.2 ⟨o1.2.1, false⟩).2 = (book dflt o2.2.2 ⟨o2.2.1, false⟩).2 := by
+  unfold Spec.hashOutcomes at h1 h2
+  cases msg with
+  | none =>
+    simp only [List.mem_singleton] at h1 h2
+    rw [h1, h2]
+  | some m =>
+    simp only [List.mem_map] at h1 h2
+    obtain ⟨c1, _, rfl⟩ := h1
+    obtain ⟨c2, _, rfl⟩ := h2
+    rcases hashOutcome_shape sp m h c1 with ⟨r1, i1, hc1, hl1⟩ | ⟨hl1, hz1, hv1⟩
+    · rcases hashOutcome_shape sp m h c2 with ⟨r2, i2, hc2, hl2⟩ | ⟨hl2, hz2, hv2⟩
+      · rw [hl1, hl2] at hlog
+        simp only [List.cons.injEq, LogE.call.injEq, and_true] at hlog
+        rw [hc1, hc2, hlog.2]
+      · rw [hl1, hl2] at hlog; cases hlog
+    · rcases hashOutcome_shape sp m h c2 with ⟨r2, i2, hc2, hl2⟩ | ⟨hl2, hz2, hv2⟩
+      · rw [hl1, hl2] at hlog; cases hlog
+      · rw [hz1, hz2] at hb ⊢
+        exact book_quiet dflt hv1 hv2 hb
+
+theorem findSome_mem {α β} {l : List α} {f : α → Option β} {c : β} {x : α} (hx : x ∈ l) (hfx : (f x).isSome)
+    (hall : ∀ y, y ∈ l → ∀ b, f y = some b → b = c) : l.findSome? f = some c := by
+  induction l with
+  | nil => cases hx
+  | cons a rest ih =>
+    rw [List.findSome?_cons]
+    cases hfa : f a with
+    | some y => rw [hall a (List.mem_cons_self ..) y hfa]
+    | none =>
+      simp only
+      rw [List.mem_cons] at hx
+      rcases hx with rfl | hx
+      · rw [hfa] at hfx; cases hfx
+      · exact ih hx (fun y hy => hall y (List.mem_cons_of_mem _ hy))
+
+/-- `emitResolved` with a handler that dispatches by hash -/
+theorem emitResolved_nest {d : Disp} {cmd : Option (Nat × Slot)} {evid : Id} {msg : Option (List Byte)} {res : HRes}
+    (o : List LogE × Int × Id)
+    (hcmd : ∀ i s, cmd = some (i, s) → s.cmd = some .user)
+    (hinner : nestedCall d msg res = (⟨.val o.2.1, o.1⟩, o.2.2)) :
+    emitResolved d cmd evid msg true res =
+      match resolveReg cmd d.err with
+      | some r =>
+        ({ d with dflt := (book d.dflt o.2.2 ⟨o.2.1, false⟩).2 },
+         ⟨.val (book d.dflt o.2.2 ⟨o.2.1, false⟩).1, .call r evid :: o.1⟩)
+      | none =>
+        if d.bi then ({ d with dflt := (book d.dflt evid (builtinAnswer evid msg)).2 },
+                      ⟨.val (book d.dflt evid (builtinAnswer evid msg)).1, []⟩)
+        else (d, ⟨.val (-1), []⟩) := by
+  have key : ∀ r, (match invokeNested d Hnd.user r evid msg res with
+      | none => (d, (⟨.fault, []⟩ : Out))
+      | some (log, evid', state) =>
+        if state < 0 then (d, ⟨.val state, log⟩)
+        else emitFlags d state evid' log) =
+      ({ d with dflt := (book d.dflt o.2.2 ⟨o.2.1, false⟩).2 },
+         ⟨.val (book d.dflt o.2.2 ⟨o.2.1, false⟩).1, .call r evid :: o.1⟩) := by
+    intro r
+    simp only [invokeNested, hinner]
+    by_cases hneg : o.2.1 < 0
+    · simp [hneg, book]
+    · simp only [hneg, if_false]
+      exact emitFlags_book d o.2.2 ⟨o.2.1, false⟩ hneg _
+  unfold emitResolved
+  cases cmd with
+  | some x =>
+    obtain ⟨i, s⟩ := x
+    have := hcmd i s rfl
+    simp only [this, Option.map_some, resolveReg, if_true]
+    exact key s.arg
+  | none =>
+    cases he : d.err with
+    | none =>
+      simp only [Option.map_none, resolveReg]
+      by_cases hb : d.bi = true
+      · simp only [hb, if_true]
+        obtain ⟨h1, h2⟩ := unknownEvent_answer evid msg
+        rw [h1]
+        have := emitFlags_book d evid (builtinAnswer evid msg) h2 []
+        simp only [he, hb] at this ⊢
+        exact this
+      · simp [hb, Err.code]
+    | some r =>
+      simp only [Option.map_some, resolveReg, if_true]
+      have := key r
+      simp only [he] at this
+      exact this
+
+theorem nestedCall_outcome {m : St} {sp : Spec} (hw : TWf m.d.tab) (hr : Rel m sp) (hs : SInv sp)
+    (msg : Option (List Byte)) (h : HRes) :
+    nestedCall m.d msg h =
+      (⟨.val (nestedOutcome sp msg h).2.1, (nestedOutcome sp msg h).1⟩, (nestedOutcome sp msg h).2.2) := by
+  unfold nestedCall nestedOutcome
+  cases msg with
+  | none => rfl
+  | some mm => exact hashExec_outcome hw hr hs _ _ _
+
+/-- `emitResolved` with a nesting handler against `stepEmit` -/
+theorem refines_resolved_nest {m : St} {sp : Spec} {id : Id} {msg : Option (List Byte)} {h : HRes}
+    (hw : TWf m.d.tab) (hr : Rel m sp) (hs : SInv sp) :
+    ∃ sp', sp.stepEmit id msg true h (emitResolved m.d (commandGet m.d.tab id) id msg true h).2 = some sp' ∧
+      Rel { m with d := (emitResolved m.d (commandGet m.d.tab id) id msg true h).1 } sp' ∧
+      (emitResolved m.d (commandGet m.d.tab id) id msg true h).1.tab = m.d.tab := by
+  rw [emitResolved_nest _ (get_user hw) (nestedCall_outcome hw hr hs msg h)]
+  unfold Spec.stepEmit
+  rw [target_eq hr hs]
+  generalize resolveReg (commandGet m.d.tab id) m.d.err = tgt
+  cases tgt with
+  | none =>
+    by_cases hb : m.d.bi = true
+    · have hsb : sp.bi = true := by rw [hr.bi]; exact hb
+      refine ⟨{ sp with dflt := (book sp.dflt id (builtinAnswer id msg)).2 }, ?_, ?_, by simp [hb]⟩
+      · simp [Spec.stepUnhandled, hsb, hb, hr.dflt]
+      · simp only [hb, if_true]
+        exact ⟨hr.live, hr.fb, by simp [hr.dflt], hr.next, hsb⟩
+    · have hsb : sp.bi = false := by rw [hr.bi]; simpa using hb
+      refine ⟨sp, ?_, ?_, by simp [hb]⟩
+      · simp [Spec.stepUnhandled, hsb, hb, Spec.isErr]
+      · simp only [hb]
+        exact ⟨hr.live, hr.fb, hr.dflt, hr.next, hr.bi⟩
+  | some r =>
+    have hmem := nestedOutcome_mem sp msg h
+    generalize nestedOutcome sp msg h = o at hmem
+    refine ⟨{ sp with dflt := (book sp.dflt o.2.2 ⟨o.2.1, false⟩).2 }, ?_, ?_, rfl⟩
+    · simp only [Spec.stepDeliver, if_true, ← hr.dflt]
+      apply findSome_mem hmem
+      · simp
+      · intro y hy b hyb
+        split at hyb
+        · rename_i hc
+          simp only [Bool.and_eq_true, decide_eq_true_eq, beq_iff_eq, Ret.val.injEq, List.cons.injEq, true_and] at hc
+          cases hyb
+          rw [hashOutcomes_unique sp.dflt hmem hy hc.2 hc.1]
+        · cases hyb
+    · exact ⟨hr.live, hr.fb, by simp [hr.dflt], hr.next, hr.bi⟩
+
+theorem refines_emitCmd {m : St} {sp : Spec} {msg : List Byte} {h : HRes} (hw : TWf m.d.tab) (hr : Rel m sp) (hs : SInv sp) :
+    ∃ sp', sp.step (.emitCmd msg h) (step m (.emitCmd msg h)).2 = some sp' ∧ Rel (step m (.emitCmd msg h)).1 sp' ∧
+      TWf (step m (.emitCmd msg h)).1.d.tab := by
+  cases msg with
+  | nil =>
+    refine ⟨sp, ?_, ?_, ?_⟩
+    · simp [step, Spec.step, dispatchEmit, Spec.isErr]
+    · simp only [step, dispatchEmit]; exact ⟨hr.live, hr.fb, hr.dflt, hr.next, hr.bi⟩
+    · simp only [step, dispatchEmit]; exact hw
+  | cons b rest =>
+    obtain ⟨sp', h1, h2, h3⟩ := refines_resolved_nest (id := b.toUInt64) (msg := some (b :: rest)) (h := h) hw hr hs
+    refine ⟨sp', ?_, ?_, ?_⟩
+    · simpa [step, Spec.step, dispatchEmit] using h1
+    · simpa [step, dispatchEmit] using h2
+    · simp only [step, dispatchEmit]; rw [h3]; exact hw
 
 theorem refines_fini {m : St} {sp : Spec} (hw : TWf m.d.tab) (hr : Rel m sp) (hs : SInv sp) :
     ∃ sp', sp.step .fini (step m .fini).2 = some sp' ∧ Rel (step m .fini).1 sp' ∧ TWf (step m .fini).1.d.tab := by
@@ -906,6 +1180,8 @@ theorem step_refines {m : St} {sp : Spec} {op : Op} (hw : TWf m.d.tab) (hr : Rel
   | emitMsg msg h => exact refines_emitMsg hw hr hs
   | emitNone h => exact refines_emitNone hw hr hs
   | hash msg h => exact refines_hash hw hr hs
+  | hashFrag frags h => exact refines_hashFrag hw hr hs
+  | emitCmd msg h => exact refines_emitCmd hw hr hs
   | reserve w => exact refines_reserve hw hr hs
   | fini => exact refines_fini hw hr hs
   | drop => exact refines_drop hw hr hs
